@@ -461,3 +461,280 @@ Proof.
   - (* PBuf *) constructor; rewrite ?EP; [exact IH| |exact SUB|exact B'|exact K'|exact IS|exact IBZ|exact LEN|exact IX].
     cbn [owns] in *. lia.
 Qed.
+
+(* ---------- creation of a frame, every policy (sequential use) ---------- *)
+Lemma ceil_mul n a : 0 < a -> n <= (n + a - 1) / a * a.
+Proof.
+  intros A. pose proof (Z.div_mod (n + a - 1) a ltac:(lia)) as D.
+  pose proof (Z.mod_pos_bound (n + a - 1) a A) as M. lia.
+Qed.
+
+Lemma balloc_inv p h s l slot fid n :
+  InvT p 0 h s l -> 0 < n -> ~ In slot (keys l) ->
+  (single (p_pol p) = true -> l = []) -> (p_pol p = PPlc -> n <= p_a p) ->
+  let '(h1, s1, g) := balloc p h s n in
+  InvT p 0 h1 s1 ((slot, mkFr fid (g_blk g) n (g_need g) (g_room g) (g_tr g)) :: l).
+Proof.
+  intros I N K SG PL. unfold balloc. destruct (p_pol p) eqn:EP.
+  - (* PDef *)
+    destruct I as [IH IC IF IB IK IS IBZ ISG IX]. unfold hnew. cbn [g_blk g_need g_room g_tr].
+    constructor; rewrite ?EP.
+    + exact (hnew_ok h n IH).
+    + cbn [h_live]. rewrite zlen_cons, sumw_cons, IC, EP. cbn [owns nsown]. lia.
+    + intros i f [A|A]; [|exact (frame_ok_hnew p h s f n (IF _ _ A))].
+      inversion A; subst. unfold frame_ok. cbn [f_n f_need f_room f_blk f_tr h_live]. rewrite EP. cbn [trailer].
+      refine (conj N (conj _ (conj _ (conj _ _)))); try lia; [apply in_eq|eexists; reflexivity].
+    + cbn [blocks map snd f_blk]. constructor; [|exact IB]. exact (fresh_not_in_blocks p h s l IH IF).
+    + cbn [keys map fst]. constructor; assumption.
+    + unfold sto_ok. rewrite EP. exact Logic.I.
+    + reflexivity.
+    + discriminate.
+    + exact IX.
+  - (* PReu *)
+    specialize (SG eq_refl). subst l.
+    destruct I as [IH IC IF IB IK IS IBZ ISG IX]. unfold sto_ok in IS. rewrite EP in IS, IC. destruct IS as [C0 IS].
+    rewrite sumw_nil in IC. cbn [nsown] in IC.
+    unfold reu_alloc. destruct (n >? s_cap s) eqn:G.
+    + set (h' := hdel_opt h (s_ptr s)).
+      assert (H' : heap_ok h' /\ h_next h' = h_next h /\ zlen (h_live h') = 0).
+      { unfold h', hdel_opt. destruct (s_ptr s) as [b0|] eqn:EP0.
+        - destruct (hdel_live _ _ _ IS) as (L1 & L2 & _). refine (conj (hdel_ok _ _ _ IH IS) (conj L2 _)).
+          rewrite L1, hrem_length by exact (hmem_In _ _ _ IS). lia.
+        - refine (conj IH (conj eq_refl _)). lia. }
+      destruct H' as (H1 & H2 & H3). unfold hnew. cbn [g_blk g_need g_room g_tr s_cap]. rewrite H2.
+      constructor; rewrite ?EP.
+      * pose proof (hnew_ok h' n H1) as X. unfold hnew in X. cbn [fst] in X. rewrite H2 in X. exact X.
+      * cbn [h_live]. rewrite zlen_cons, sumw_cons, sumw_nil, H3. cbn [owns nsown s_ptr]. lia.
+      * intros i f [A|[]]. inversion A; subst. unfold frame_ok. cbn [f_n f_need f_room f_blk f_tr h_live s_ptr]. rewrite EP.
+        cbn [trailer optblk]. refine (conj N (conj _ (conj _ (conj _ _)))); try lia; [apply in_eq|reflexivity].
+      * cbn [blocks map]. constructor; [intros []|constructor].
+      * cbn [keys map]. constructor; [intros []|constructor].
+      * unfold sto_ok. rewrite EP. cbn [s_cap s_ptr h_live]. split; [lia|apply in_eq].
+      * reflexivity.
+      * cbn [length]. lia.
+      * exact IX.
+    + cbn [g_blk g_need g_room g_tr]. destruct (s_ptr s) as [b0|] eqn:EP0; [|lia]. cbn [optblk].
+      constructor; rewrite ?EP.
+      * exact IH.
+      * rewrite sumw_cons, sumw_nil. cbn [owns nsown]. rewrite EP0. lia.
+      * intros i f [A|[]]. inversion A; subst. unfold frame_ok. cbn [f_n f_need f_room f_blk f_tr]. rewrite EP, EP0.
+        cbn [trailer optblk]. refine (conj N (conj _ (conj _ (conj IS eq_refl)))); lia.
+      * cbn [blocks map]. constructor; [intros []|constructor].
+      * cbn [keys map]. constructor; [intros []|constructor].
+      * unfold sto_ok. rewrite EP, EP0. auto.
+      * reflexivity.
+      * cbn [length]. lia.
+      * exact IX.
+  - (* PMts *)
+    destruct (s_busy s) eqn:B.
+    + exact (mts_lost_inv p 0 h s l slot fid n EP I N K).
+    + destruct (mts_claim_inv p 0 h s l EP I B) as [_ I1].
+      exact (mts_won_inv p 0 h (set_busy s true) l slot fid n EP ltac:(lia) I1 N K).
+  - (* PStk *)
+    destruct I as [IH IC IF IB IK IS IBZ ISG IX].
+    assert (OLD : forall s', s_ptr s' = s_ptr s -> s_ownc s' = S (s_ownc s) ->
+                  forall i f, In (i, f) l -> frame_ok p h s' f).
+    { intros s' E1 E2 i f A. apply (frame_ok_sto p h s); [exact E1|lia|exact (IF _ _ A)]. }
+    destruct (n + 1 <=? s_state s) eqn:G.
+    + cbn [g_blk g_need g_room g_tr]. constructor; rewrite ?EP.
+      * exact IH.
+      * rewrite sumw_cons, IC, EP. cbn [owns nsown f_tr]. lia.
+      * intros i f [A|A]; [|apply OLD with (i := i); [reflexivity|reflexivity|exact A]].
+        inversion A; subst. unfold frame_ok. cbn [f_n f_need f_room f_blk f_tr s_ownc]. rewrite EP. cbn [trailer].
+        refine (conj N (conj _ (conj _ (conj _ _)))); try lia. eexists; reflexivity.
+      * cbn [blocks map snd f_blk]. constructor; [|exact IB]. exact (own_not_in_blocks p h s l IF EP).
+      * cbn [keys map fst]. constructor; assumption.
+      * unfold sto_ok. rewrite EP. exact Logic.I.
+      * reflexivity.
+      * discriminate.
+      * exact IX.
+    + unfold hnew. cbn [g_blk g_need g_room g_tr]. constructor; rewrite ?EP.
+      * exact (hnew_ok h (n + 1) IH).
+      * cbn [h_live]. rewrite zlen_cons, sumw_cons, IC, EP. cbn [owns nsown f_tr]. lia.
+      * intros i f [A|A].
+        -- inversion A; subst. unfold frame_ok. cbn [f_n f_need f_room f_blk f_tr h_live]. rewrite EP. cbn [trailer].
+           refine (conj N (conj _ (conj _ (conj _ _)))); try lia; [apply in_eq|eexists; reflexivity].
+        -- apply (frame_ok_hnew p h _ f (n + 1)). apply OLD with (i := i); [reflexivity|reflexivity|exact A].
+      * cbn [blocks map snd f_blk]. constructor; [|exact IB]. exact (fresh_not_in_blocks p h s l IH IF).
+      * cbn [keys map fst]. constructor; assumption.
+      * unfold sto_ok. rewrite EP. exact Logic.I.
+      * reflexivity.
+      * discriminate.
+      * exact IX.
+  - (* PPlc *)
+    specialize (SG eq_refl). subst l. specialize (PL eq_refl).
+    destruct I as [IH IC IF IB IK IS IBZ ISG IX]. cbn [g_blk g_need g_room g_tr].
+    constructor; rewrite ?EP.
+    + exact IH.
+    + rewrite sumw_cons, IC, EP. cbn [owns nsown]. lia.
+    + intros i f [A|[]]. inversion A; subst. unfold frame_ok. cbn [f_n f_need f_room f_blk f_tr]. rewrite EP. cbn [trailer].
+      refine (conj N (conj _ (conj _ (conj (conj eq_refl eq_refl) eq_refl)))); lia.
+    + cbn [blocks map]. constructor; [intros []|constructor].
+    + cbn [keys map]. constructor; [intros []|constructor].
+    + unfold sto_ok. rewrite EP. exact Logic.I.
+    + reflexivity.
+    + cbn [length]. lia.
+    + exact IX.
+  - (* PBuf *)
+    specialize (SG eq_refl). subst l.
+    destruct I as [IH IC IF IB IK IS IBZ ISG IX]. unfold sto_ok in IS. rewrite EP in IS, IC.
+    destruct IS as (A0 & [S0 S1] & IS). rewrite sumw_nil in IC. cbn [nsown] in IC.
+    set (items := (n + p_a p - 1) / p_a p).
+    pose proof (ceil_mul n (p_a p) A0) as CM. fold items in CM.
+    assert (I1 : 1 <= items).
+    { unfold items. pose proof (Z.div_mod (n + p_a p - 1) (p_a p) ltac:(lia)).
+      pose proof (Z.mod_pos_bound (n + p_a p - 1) (p_a p) A0). nia. }
+    assert (FIN : forall h1 s1, heap_ok h1 -> zlen (h_live h1) = 1 -> items <= s_bcap s1 -> 0 <= s_bsize s1 <= s_bcap s1 ->
+                  forall b1, s_ptr s1 = Some b1 -> In (b1, s_bcap s1 * p_a p) (h_live h1) ->
+                  InvT p 0 h1 s1 [(slot, mkFr fid (optblk (s_ptr s1)) n n (s_bcap s1 * p_a p) false)]).
+    { intros h1 s1 HK Z1 LE SZ b1 E1 V1.
+      assert (n <= s_bcap s1 * p_a p) by nia.
+      constructor; rewrite ?EP.
+      - exact HK.
+      - rewrite sumw_cons, sumw_nil, Z1. cbn [owns nsown]. rewrite E1. lia.
+      - intros i f [A|[]]. inversion A; subst. unfold frame_ok. cbn [f_n f_need f_room f_blk f_tr]. rewrite EP, E1.
+        cbn [trailer optblk]. refine (conj N (conj _ (conj _ (conj V1 eq_refl)))); lia.
+      - cbn [blocks map]. constructor; [intros []|constructor].
+      - cbn [keys map]. constructor; [intros []|constructor].
+      - unfold sto_ok. rewrite EP, E1. auto.
+      - reflexivity.
+      - cbn [length]. lia.
+      - exact IX. }
+    destruct (s_bsize s <? items) eqn:G1.
+    + unfold vec_resize. destruct (items >? s_bcap s) eqn:G2.
+      * unfold hnew. cbn [g_blk g_need g_room g_tr].
+        set (ncap := Z.max (2 * s_bsize s) items).
+        set (h1 := mkHeap (S (h_next h)) ((h_next h, ncap * p_a p) :: h_live h) (h_allocs h + 1) (h_frees h) (h_bad h)).
+        assert (HK1 : heap_ok h1) by exact (hnew_ok h (ncap * p_a p) IH).
+        assert (HD : heap_ok (hdel_opt h1 (s_ptr s)) /\ zlen (h_live (hdel_opt h1 (s_ptr s))) = 1 /\
+                     In (h_next h, ncap * p_a p) (h_live (hdel_opt h1 (s_ptr s)))).
+        { unfold hdel_opt. destruct (s_ptr s) as [b0|] eqn:EP0.
+          - assert (V : In (b0, s_bcap s * p_a p) (h_live h1)) by (apply in_cons; exact IS).
+            destruct (hdel_live _ _ _ V) as (L1 & _). refine (conj (hdel_ok _ _ _ HK1 V) (conj _ _)).
+            + rewrite L1, hrem_length by exact (hmem_In _ _ _ V). unfold h1. cbn [h_live]. rewrite zlen_cons. lia.
+            + rewrite L1. apply hrem_In; [apply in_eq|]. pose proof (hk_lt _ IH _ _ IS). lia.
+          - refine (conj HK1 (conj _ (in_eq _ _))). unfold h1. cbn [h_live]. rewrite zlen_cons. lia. }
+        destruct HD as (D1 & D2 & D3).
+        apply (FIN _ _ D1 D2) with (b1 := h_next h); cbn [s_bcap s_bsize s_ptr]; try lia; [reflexivity|exact D3].
+      * cbn [g_blk g_need g_room g_tr].
+        assert (exists b0, s_ptr s = Some b0) as [b0 EP0] by (destruct (s_ptr s); [eexists; reflexivity|lia]).
+        rewrite EP0 in IS, IC.
+        refine (FIN h _ IH _ _ _ b0 _ _); cbn [s_bcap s_bsize s_ptr]; try lia; [exact EP0|exact IS].
+    + cbn [g_blk g_need g_room g_tr].
+      assert (exists b0, s_ptr s = Some b0) as [b0 EP0] by (destruct (s_ptr s); [eexists; reflexivity|lia]).
+      rewrite EP0 in IS, IC.
+      refine (FIN h s IH _ _ _ b0 EP0 IS); lia.
+Qed.
+
+(* ---------- run level ---------- *)
+Definition RI (pol : policy) (p : prm) (c : core) : Prop :=
+  p_pol p = pol /\ heap_ok (hp c) /\
+  (c_up c = true -> InvT p 0 (hp c) (st c) (frs c)) /\
+  (c_up c = false -> frs c = [] /\ h_live (hp c) = []).
+
+Lemma heap0_ok : heap_ok heap0.
+Proof. constructor; cbn; auto. intros b z []. Qed.
+
+Lemma zlen_nil_inv {A} (l : list A) : zlen l = 0 -> l = [].
+Proof. destruct l; [reflexivity|]. unfold zlen. cbn [length]. lia. Qed.
+
+Lemma init_inv p : 0 <= p_x p -> 0 <= p_a p -> 0 <= p_b p -> (p_pol p = PBuf -> 0 < p_a p) ->
+  InvT p 0 (hp (init_core p)) (st (init_core p)) (frs (init_core p)) /\ c_up (init_core p) = true.
+Proof.
+  intros X A B PB. unfold init_core.
+  assert (BASE : forall s, s_ptr s = None -> s_cap s = 0 -> s_busy s = false -> s_bsize s = 0 -> s_bcap s = 0 ->
+                 InvT p 0 heap0 s []).
+  { intros s E1 E2 E3 E4 E5. constructor.
+    - exact heap0_ok.
+    - rewrite sumw_nil. unfold nsown. rewrite E1. destruct (p_pol p); reflexivity.
+    - intros i f [].
+    - constructor.
+    - constructor.
+    - unfold sto_ok. rewrite E1, E2, E4, E5. destruct (p_pol p) eqn:EP; auto; try lia.
+    - rewrite sumw_nil, E3. destruct (p_pol p); cbn; lia.
+    - cbn [length]. lia.
+    - exact X. }
+  destruct (p_pol p) eqn:EP; try (split; [apply BASE; reflexivity|reflexivity]).
+  destruct (0 <? p_b p) eqn:G; [|split; [apply BASE; reflexivity|reflexivity]].
+  unfold hnew, heap0. cbn [hp st frs c_up h_next]. split; [|reflexivity].
+  specialize (PB eq_refl). constructor; rewrite ?EP.
+  - exact (hnew_ok heap0 (p_b p * p_a p) heap0_ok).
+  - reflexivity.
+  - intros i f [].
+  - constructor.
+  - constructor.
+  - unfold sto_ok. rewrite EP. cbn [s_bsize s_bcap s_ptr h_live]. repeat split; try lia. apply in_eq.
+  - reflexivity.
+  - cbn [length]. lia.
+  - exact X.
+Qed.
+
+Lemma destroy_heap h po : heap_ok h -> zlen (h_live h) = (match po with Some _ => 1 | None => 0 end) ->
+  (forall b, po = Some b -> exists z, In (b, z) (h_live h)) ->
+  heap_ok (hdel_opt h po) /\ h_live (hdel_opt h po) = [].
+Proof.
+  intros HK Z E. unfold hdel_opt. destruct po as [b|].
+  - destruct (E b eq_refl) as [z V]. destruct (hdel_live _ _ _ V) as (L1 & _).
+    split; [exact (hdel_ok _ _ _ HK V)|]. rewrite L1. apply zlen_nil_inv.
+    rewrite hrem_length by exact (hmem_In _ _ _ V). lia.
+  - split; [exact HK|]. apply zlen_nil_inv. exact Z.
+Qed.
+
+Lemma gstep_RI pol p c o :
+  RI pol p c ->
+  let p1 := if wf_op c o then prm_of pol p o else p in
+  RI pol p1 (fst (gstep p1 c o)).
+Proof.
+  intros (EP & HK & UP & DN). cbn zeta.
+  assert (EP1 : p_pol (if wf_op c o then prm_of pol p o else p) = pol).
+  { destruct (wf_op c o); [|exact EP]. destruct o; cbn [prm_of p_pol]; auto. }
+  unfold gstep. destruct (wf_op c o) eqn:W; cbn [andb]; [|cbn [fst]; exact (conj EP (conj HK (conj UP DN)))].
+  destruct (contract (prm_of pol p o) c o) eqn:CT; cbn [fst].
+  2:{ destruct o; cbn [prm_of] in *; try exact (conj EP (conj HK (conj UP DN))).
+      cbn [wf_op] in W. repeat (apply andb_prop in W; destruct W as [W ?]). apply negb_true_iff in W.
+      refine (conj eq_refl (conj HK (conj _ DN))). intros U. congruence. }
+  destruct o as [x a b|slot sz|slot| |]; cbn [prm_of] in *; cbn [exec fst].
+  - (* Init *)
+    cbn [wf_op] in W. repeat (apply andb_prop in W; destruct W as [W ?]).
+    destruct (init_inv (mkPrm pol x a b)) as [I U]; cbn [p_x p_a p_b p_pol]; try lia.
+    { intros E. cbn [contract p_pol] in CT. rewrite E in CT. lia. }
+    refine (conj eq_refl (conj (i_heap _ _ _ _ _ I) (conj (fun _ => I) _))). intros U2. congruence.
+  - (* Create *)
+    cbn [wf_op] in W. repeat (apply andb_prop in W; destruct W as [W ?]).
+    destruct (fget (frs c) slot) eqn:G; [discriminate|].
+    specialize (UP W). pose proof (i_pos _ _ _ _ _ UP) as X.
+    assert (SGL : single (p_pol p) = true -> frs c = []).
+    { intros S. cbn [contract] in CT. destruct (p_pol p); try discriminate; destruct (frs c); auto; discriminate. }
+    assert (PLC : p_pol p = PPlc -> sz + p_x p <= p_a p).
+    { intros E. cbn [contract] in CT. rewrite E in CT. destruct (frs c); [lia|discriminate]. }
+    pose proof (balloc_inv p (hp c) (st c) (frs c) slot (c_nfid c) (sz + p_x p) UP ltac:(lia)
+                  (fget_None_keys _ _ G) SGL PLC) as BI.
+    unfold create, mk_frame. destruct (balloc p (hp c) (st c) (sz + p_x p)) as [[h1 s1] g].
+    cbn [fst hp st frs c_up]. refine (conj EP (conj (i_heap _ _ _ _ _ BI) (conj (fun _ => BI) _))). intros U2. cbn [c_up] in U2. congruence.
+  - (* Finish *)
+    cbn [wf_op] in W. apply andb_prop in W. destruct W as [W G].
+    destruct (fget (frs c) slot) as [f|] eqn:GF; [|discriminate].
+    specialize (UP W). pose proof (finish_inv p 0 (hp c) (st c) (frs c) slot f UP GF) as FI.
+    unfold finish. destruct (bdealloc p (hp c) (st c) (f_blk f) (f_tr f)) as [h1 s1].
+    cbn [fst hp st frs c_up]. refine (conj EP (conj (i_heap _ _ _ _ _ FI) (conj (fun _ => FI) _))). intros U2. cbn [c_up] in U2. congruence.
+  - (* Destroy *)
+    cbn [wf_op] in W. apply andb_prop in W. destruct W as [W G].
+    destruct (frs c) eqn:EF; [|discriminate]. specialize (UP W).
+    destruct UP as [IH IC IF IB IK IS IBZ ISG IX]. rewrite sumw_nil in IC.
+    unfold destroy. cbn [fst hp st frs c_up]. rewrite EF. unfold sto_ok in IS.
+    assert (NOUP : false = true -> InvT p 0 (hp c) (st c) []) by discriminate.
+    destruct (p_pol p) eqn:EPP; cbn [nsown] in IC.
+    + unfold RI; rewrite EPP; refine (conj EP (conj IH (conj _ (fun _ => conj eq_refl (zlen_nil_inv _ _))))); [discriminate|cbn [hp]; lia].
+    + destruct (destroy_heap (hp c) (s_ptr (st c)) IH ltac:(lia)) as [D1 D2].
+      { intros b E. rewrite E in IS. eexists. apply IS. }
+      unfold RI; rewrite EPP; refine (conj EP (conj D1 (conj _ (fun _ => conj eq_refl D2)))). discriminate.
+    + destruct (destroy_heap (hp c) (s_ptr (st c)) IH ltac:(lia)) as [D1 D2].
+      { intros b E. rewrite E in IS. eexists. apply IS. }
+      unfold RI; rewrite EPP; refine (conj EP (conj D1 (conj _ (fun _ => conj eq_refl D2)))). discriminate.
+    + unfold RI; rewrite EPP; refine (conj EP (conj IH (conj _ (fun _ => conj eq_refl (zlen_nil_inv _ _))))); [discriminate|cbn [hp]; lia].
+    + unfold RI; rewrite EPP; refine (conj EP (conj IH (conj _ (fun _ => conj eq_refl (zlen_nil_inv _ _))))); [discriminate|cbn [hp]; lia].
+    + destruct (destroy_heap (hp c) (s_ptr (st c)) IH ltac:(lia)) as [D1 D2].
+      { intros b E. rewrite E in IS. eexists. apply IS. }
+      unfold RI; rewrite EPP; refine (conj EP (conj D1 (conj _ (fun _ => conj eq_refl D2)))). discriminate.
+  - discriminate.
+Qed.
